@@ -320,6 +320,8 @@ func (vc *VC) havocComps(st *State, comps map[string]string, why string) {
 	if len(comps) > 0 {
 		vc.note("inferred mod-set havoc: " + why)
 	}
+	// objects the callee allocated only refer to objects that exist after the call
+	vc.closeAll(st)
 	vc.assumeGlobals(st)
 }
 
